@@ -4,6 +4,7 @@
   photons can have been lost".  Model: LW.Model.Dist.
 -/
 import LW.Proofs.C04a
+import LW.Proofs.C04b
 
 namespace LW.C04
 
@@ -53,5 +54,52 @@ theorem pdistCalc_nonneg (b : BackendKind) (nsq : K → Q) (hn : ∀ z, 0 ≤ ns
     (U : M K) (nReal : Nat) (inputs : List (FState × Q)) (hw : ∀ x ∈ inputs, 0 ≤ x.2) :
     ∀ x ∈ pdistCalc b nsq eps U nReal inputs, 0 ≤ x.2 :=
   Proofs.C04a.pdistCalc_nonneg b nsq hn eps heps U nReal inputs hw
+
+/-! ## part B: the backends agree; exact normalisation -/
+
+section PartB
+
+variable {K Q : Type}
+
+/-- SLOS = PERMANENT at amplitude level: the layer recursion computes, for every output `t` of the
+right photon number, the permanent divided by `t!` (`φ(t)·t! = perm U[t|s]`) -/
+theorem slos_eq_permanent [CommRing K] (U : M K) (hN : 0 < U.n) (s t : FState)
+    (hs : s.length = U.n) (ht : t.length = U.n) (hp : photons t = photons s) :
+    ampNum U s t = ((factProd t : Nat) : K) * slosGet (slosPhi U s) t :=
+  Proofs.C04b.slos_eq_permanent U hN s t hs ht hp
+
+/-- … hence both backends assign the same probability to every pattern that keeps at least one
+photon on the circuit's modes, for every truncation threshold.  `nsq` is a multiplicative
+squared modulus (`|ab|² = |a|²|b|²`, `|n|² = n²`). -/
+theorem backends_agree [CommRing K] [Field Q] [LinearOrder Q] [IsStrictOrderedRing Q]
+    (nsq : K → Q) (hmul : ∀ a b, nsq (a * b) = nsq a * nsq b) (hnat : ∀ n : Nat, nsq (n : K) = (n : Q) * (n : Q))
+    (eps : Q) (U : M K) (nReal : Nat) (input : FState) (hlen : input.length = nReal) (hU : nReal ≤ U.n)
+    (hpos : 0 < nReal) (r : FState) (hr : photons r ≠ 0) :
+    ((fullDistSlos nsq eps U nReal input).get? r).getD 0 =
+      ((fullDistPermanent nsq eps U nReal input).get? r).getD 0 :=
+  Proofs.C04b.backends_agree nsq hmul hnat eps U nReal input hlen hU hpos r hr
+
+/-- NORMALISATION: without truncation the distribution of a unitary circuit sums to exactly one
+(both backends).  `ι` embeds probabilities into amplitudes with `ι |z|² = z·z̄`. -/
+theorem fullDist_total_one [Field K] [StarRing K] [CharZero K] [Field Q] [LinearOrder Q]
+    [IsStrictOrderedRing Q] (nsq : K → Q) (ι : Q →+* K) (hι : Function.Injective ι)
+    (hnsq : ∀ z, ι (nsq z) = z * star z) (hn : ∀ z, 0 ≤ nsq z)
+    (b : BackendKind) (U : M K) (hU : IsUnitary U) (nReal : Nat) (input : FState)
+    (hlen : input.length = nReal) (hle : nReal ≤ U.n) (hpos : 0 < nReal) :
+    (fullDist b nsq 0 U nReal input).total = 1 :=
+  Proofs.C04b.fullDist_total_one nsq ι hι hnsq hn b U hU nReal input hlen hle hpos
+
+/-- a mixture over source inputs whose weights sum to one is normalised as well -/
+theorem pdistCalc_total_one [Field K] [StarRing K] [CharZero K] [Field Q] [LinearOrder Q]
+    [IsStrictOrderedRing Q] (nsq : K → Q) (ι : Q →+* K) (hι : Function.Injective ι)
+    (hnsq : ∀ z, ι (nsq z) = z * star z) (hn : ∀ z, 0 ≤ nsq z)
+    (b : BackendKind) (U : M K) (hU : IsUnitary U) (nReal : Nat) (hle : nReal ≤ U.n) (hpos : 0 < nReal)
+    (inputs : List (FState × Q)) (hin : ∀ x ∈ inputs, x.1.length = nReal ∧ 0 ≤ x.2)
+    (hw : (inputs.map (·.2)).sum = 1) :
+    (pdistCalc b nsq 0 U nReal inputs).total = 1 :=
+  Proofs.C04b.pdistCalc_total_one nsq ι hι hnsq hn b U hU nReal hle hpos inputs hin hw
+
+
+end PartB
 
 end LW.C04
